@@ -10,7 +10,9 @@
     were not), on plain / isolated context scopes, full scopes, shared and isolated
     children; children created on (and racing with the end of) a done parent; errors are
     appended singly and as lists with nil entries in any position (nils are skipped, the
-    rest retained; an all-nil list ends nothing).
+    rest retained; an all-nil list ends nothing); a scope that is ended while registered
+    tasks are still running: Wait / Close return only after the last sign-off, report every
+    error the tasks appended, and the tasks' own calls do not panic.
 (T) free-running storms of 2-64 goroutines with start/end events of every call are
     validated by Trace_ScopeSignal.tla; the "errors" observations alternate between the list
     accessor (Errors) and the cumulative one (Err: the leaves beneath its wrappers), so a
